@@ -170,13 +170,14 @@ Inductive compat : otv -> otv -> Prop :=
 (* keys unique at every struct level *)
 Inductive o_wf : otv -> Prop :=
 | W_sc o z s : o_wf (OSc o z s)
-| W_rec o fs : NoDup (map fst fs) -> Forall (fun e => o_wf (snd e)) fs -> o_wf (ORec o fs).
+| W_rec o fs : NoDup (map fst fs) -> Forall (fun e => o_wf (snd e)) fs -> o_wf (ORec o fs)
+| W_nil o : o_wf (ONil o).
 
 (* the setting at key path p of the typed configuration *)
 Fixpoint o_get (p : path) (v : otv) : option otv :=
   match p with
   | [] => Some v
-  | k :: r => match v with ORec _ fs => opt_bind (lookup k fs) (o_get r) | OSc _ _ _ => None end
+  | k :: r => match v with ORec _ fs => opt_bind (lookup k fs) (o_get r) | _ => None end
   end.
 
 (* ... provided no field on the way (p itself included) is left out as omitempty-and-zero *)
@@ -186,6 +187,44 @@ Fixpoint o_get_vis (p : path) (v : otv) : option otv :=
   | k :: r =>
       match v with
       | ORec _ fs => opt_bind (lookup k fs) (fun x => if o_omitted x then None else o_get_vis r x)
-      | OSc _ _ _ => None
+      | _ => None
       end
   end.
+
+(* ---- the encoder, all shapes ---------------------------------------------------------------- *)
+Fixpoint xs_lookup (k : string) (fs : list (string * bool * xv)) : option (bool * xv) :=
+  match fs with
+  | [] => None
+  | (n, o, x) :: r => if String.eqb k n then Some (o, x) else xs_lookup k r
+  end.
+
+Fixpoint xm_lookup (k : string) (kvs : list (xkey * xv)) : option xv :=
+  match kvs with
+  | [] => None
+  | (k', x) :: r => if String.eqb k (key_str k') then Some x else xm_lookup k r
+  end.
+
+(* the value at key path p, provided no struct field on the way is skipped (omitempty-and-zero, "-") *)
+Fixpoint x_unptr (v : xv) : xv := match v with XPtr v' => x_unptr v' | _ => v end.
+
+Fixpoint x_get_vis (p : path) (v : xv) : option xv :=
+  match p with
+  | [] => Some v
+  | k :: r =>
+      match x_unptr v with
+      | XStruct fs => opt_bind (xs_lookup k fs) (fun ox => if x_skipped k (fst ox) (snd ox) then None else x_get_vis r (snd ox))
+      | XMap _ kvs => opt_bind (xm_lookup k kvs) (x_get_vis r)
+      | _ => None
+      end
+  end.
+
+(* names unique at every struct level, key texts unique in every map *)
+Inductive x_wf : xv -> Prop :=
+| XW_nil : x_wf XNil
+| XW_ptr v : x_wf v -> x_wf (XPtr v)
+| XW_leaf z s : x_wf (XLeaf z s)
+| XW_opq z s : x_wf (XOpaque z s)
+| XW_list n l : Forall x_wf l -> x_wf (XList n l)
+| XW_arr l : x_wf (XArray l)
+| XW_map n kvs : NoDup (map (fun e => key_str (fst e)) kvs) -> Forall (fun e => x_wf (snd e)) kvs -> x_wf (XMap n kvs)
+| XW_struct fs : NoDup (map (fun e => fst (fst e)) fs) -> Forall (fun e => x_wf (snd e)) fs -> x_wf (XStruct fs).
